@@ -78,6 +78,13 @@ PeerMaxStreams(t, v) ==
     /\ lmax' = [lmax EXCEPT ![t] = Max(@, v)]
     /\ UNCHANGED <<lopened, closed, pend, canc, nextId, rvars>>
 
+\* the peer sends a (late, duplicate, retransmitted) frame for a stream we opened earlier and
+\* that may be finished and forgotten by now: nothing about the limits changes -- in
+\* particular it frees no quota (CanOpen is unchanged) and wakes no blocked call
+LateFrame(t, num) ==
+    /\ num >= 0 /\ num < lopened[t]
+    /\ UNCHANGED <<lvars, rvars>>
+
 ConnClosed ==
     /\ closed' = TRUE
     /\ UNCHANGED <<lmax, lopened, pend, canc, nextId, rvars>>
@@ -147,6 +154,7 @@ NextLocal ==
     \/ \E t \in Types : \E id \in pend[t] : Ret(t, id, lopened[t]) \/ RetErr(t, id)
     \/ \E t \in Types : \E id \in pend[t] : Cancel(id)
     \/ \E t \in Types, v \in 0..MaxV : PeerMaxStreams(t, v)
+    \/ \E t \in Types : \E num \in 0..(lopened[t] - 1) : LateFrame(t, num)
     \/ ConnClosed
 NextRemote ==
     \/ \E t \in Types, num \in 0..MaxNum : \E m \in AllowedRmax(t, rclosed[t]) : m <= MaxV /\ PeerOpens(t, num, m)
